@@ -535,6 +535,10 @@ func c20List(t *testing.T, run *Run, bin string, sc c20Scenario, rng *rand.Rand)
 	}
 	model := map[string]*svc{}
 	names := []string{"alpha", "beta", "gamma"}
+	if ci, _ := strconv.Atoi(sc.Case); ci%3 == 2 {
+		// names outside ASCII (and wider than anything else in their column)
+		names = []string{"alpha", "bêta-naïve-sérvice-numéro-deux", "gämmä"}
+	}
 	n := 3 + rng.IntN(6)
 	var hist []string
 	for i := 0; i < n; i++ {
